@@ -148,6 +148,30 @@ def check_loader(ctx, fi):
         ctx.ob('R2', fi, bad_ret, False, 'a path from the parse to this return does not write the cache '
                                          '(the guard of the write can be false)')
 
+    # the object written to the cache is the object returned: nothing modifies it after the write
+    for c in to_cache_calls:
+        if not (isinstance(c.func, ast.Attribute) and isinstance(c.func.value, ast.Name)):
+            continue
+        obj = c.func.value.id
+        cid = cfg.node_of(c)
+        later = cfg.reachable(cid) - {cid}
+        for i in sorted(later):
+            d = cfg.nodes[i]
+            if d[0] != 'stmt':
+                continue
+            stn = d[1]
+            mut = None
+            if isinstance(stn, ast.Expr) and isinstance(stn.value, ast.Call) and isinstance(stn.value.func, ast.Attribute) \
+                    and isinstance(stn.value.func.value, ast.Name) and stn.value.func.value.id == obj and stn.value.func.attr != 'to_cache':
+                mut = stn
+            elif isinstance(stn, (ast.Assign, ast.AugAssign)):
+                tg = stn.targets if isinstance(stn, ast.Assign) else [stn.target]
+                if any(isinstance(t, (ast.Attribute, ast.Subscript)) and isinstance(t.value, ast.Name) and t.value.id == obj for t in tg) or \
+                        any(isinstance(t, ast.Name) and t.id == obj for t in tg):
+                    mut = stn
+            if mut is not None:
+                ctx.ob('R2', fi, mut, False, f'`{norm_text(mut)}` changes the trajectory after it was written to the cache: a later load from '
+                                             f'the cache returns a different trajectory than parsing the source files')
     # ---------------- R1 key completeness
     params = [p for p in fi.params() if p not in ('cls', pname)]
     if fi.node.args.kwarg:
@@ -193,8 +217,14 @@ def check_loader(ctx, fi):
         if not affects:
             continue
         how = 'flows into the parsed trajectory' if dep in res_deps else f'decides `{norm_text(ctl_deps[dep].test)}` before the parse'
+        lossy = sorted(d.split('#')[1] for d in key_deps if d.startswith(dep + '#'))
         if in_key:
             ctx.ob('R1', fi, f'parameter {p}', True, f'{how}; part of the default cache path')
+        elif lossy:
+            what = {'keys': 'only the keys', 'len': 'only the length', 'bool': 'only the truth value', 'type': 'only the type'}.get(lossy[0], lossy[0])
+            ctx.ob('R1', fi, f'parameter {p}', False,
+                   f'`{p}` {how}, but {what} of it reach the default cache path: two different values of `{p}` with the same '
+                   f'{lossy[0]} share one cache file and the second call returns the trajectory of the first')
         else:
             ctx.ob('R1', fi, f'parameter {p}', False,
                    f'`{p}` {how} but not into the default cache path: a second call with a different `{p}` '
